@@ -908,14 +908,24 @@ def vs_mod():
     return importlib.import_module("xrspatial.viewshed")
 
 
-def vs_value(rng, key):
-    g = sorted(float(rng.randint(-8, 8)) / 2 for _ in range(3))
-    rng.shuffle(g)
-    a0 = float(rng.randint(0, 20)) / 4
-    return [float(key), g[0], g[1], g[2], a0, a0 + 0.25, a0 + 0.5, 0.0]
+def vs_value(rng, key, mode=0):
+    """one status node.  mode 0: three distinct-ish gradients, a narrow span somewhere in [0, 5.5];
+    mode 1: every node spans every queried bearing (as in the sweep), centre anywhere in between -- the exact walk of
+    the query interpolates on every node and its early exit fires; mode 2: as 1 with gradients from a two-value
+    alphabet (ties in every comparison of the stored maxima)"""
+    if mode == 2:
+        g = [rng.choice([-1.0, 0.5]) for _ in range(3)]
+    else:
+        g = sorted(float(rng.randint(-8, 8)) / 2 for _ in range(3))
+        rng.shuffle(g)
+    if mode == 0:
+        a0 = float(rng.randint(0, 20)) / 4
+        return [float(key), g[0], g[1], g[2], a0, a0 + 0.25, a0 + 0.5, 0.0]
+    a1 = float(rng.randint(1, 21)) / 4
+    return [float(key), g[0], g[1], g[2], 0.0, a1, 5.5, 0.0]
 
 
-def vs_build(rng, n_ops):
+def vs_build(rng, n_ops, mode=0):
     v = vs_mod()
     tv = np.zeros((VS_N, 8), dtype=np.float64)
     tn = np.zeros((VS_N, 4), dtype=np.int64)
@@ -931,37 +941,46 @@ def vs_build(rng, n_ops):
         elif free:
             k = rng.choice([x for x in range(1, 40) if x not in keys])
             nid = free.pop(rng.randrange(len(free)))
-            root = int(v._insert_into_tree(tv, tn, root, nid, np.array(vs_value(rng, k))))
+            root = int(v._insert_into_tree(tv, tn, root, nid, np.array(vs_value(rng, k, mode))))
             keys.append(k)
     return tv, tn, root, free, keys
 
 
 def gen_vs(op):
     def gen(rng):
-        tv, tn, root, free, keys = vs_build(rng, rng.randint(0, 14))
+        mode = rng.choice([0, 1, 1, 2])
+        tv, tn, root, free, keys = vs_build(rng, rng.randint(0, 14), mode)
         c = dict(op=op, tv=tv.tolist(), tn=tn.tolist(), root=root)
         if op == "insert":
             if not free:
                 keys_ = keys
-                tv, tn, root, free, keys = vs_build(rng, 3)
+                tv, tn, root, free, keys = vs_build(rng, 3, mode)
                 c.update(tv=tv.tolist(), tn=tn.tolist(), root=root)
             k = rng.choice([x for x in range(1, 40) if x not in keys])
-            c.update(node_id=rng.choice(free), value=vs_value(rng, k))
+            c.update(node_id=rng.choice(free), value=vs_value(rng, k, mode))
         elif op in ("delete", "search"):
             present = bool(keys) and rng.random() < 0.8
             c.update(key=float(rng.choice(keys)) if present else float(rng.choice([x for x in range(1, 40) if x not in keys])))
             if op == "delete" and not present:
                 c["absent"] = True
         elif op == "query":
-            present = bool(keys)
-            c.update(key=float(rng.choice(keys)) if present else 5.0, ang=float(rng.randint(0, 22)) / 4,
-                     grad=float(rng.randint(-8, 8)) / 2)
+            # mostly the largest keys (many nearer nodes to walk over); sometimes a key that is not in the tree
+            # (the code answers SMALLEST_GRAD), sometimes the permanent dummy's key 0
+            u = rng.random()
+            if keys and u < 0.85:
+                ks = sorted(keys)
+                key = float(rng.choice(ks[len(ks) // 2:]) if rng.random() < 0.6 else rng.choice(ks))
+            elif u < 0.93:
+                key = 0.0
+            else:
+                key = float(rng.choice([x for x in range(1, 40) if x not in keys])) + rng.choice([0.0, 0.5])
+            c.update(key=key, ang=float(rng.randint(0, 22)) / 4, grad=float(rng.randint(-9, 8)) / 2)
         elif op in ("min", "succ", "fvmin"):
             used = [i for i in range(VS_N - 1) if i not in free]
             c.update(x=rng.choice(used))
         elif op in ("lrot", "rrot"):
             side = 2 if op == "lrot" else 1
-            cand = [i for i in range(1, VS_N - 1) if i not in free and tn[i, side] != -1]
+            cand = [i for i in range(0, VS_N - 1) if i not in free and tn[i, side] != -1]
             c.update(x=rng.choice(cand) if cand else None)
         return c
     return gen
@@ -1001,7 +1020,11 @@ def real_vs(c):
     if op == "search":
         return ["ret", str(int(v._search_for_node(tv, tn, c["root"], c["key"]))), farr(tv), iarr(tn)]
     if op == "query":
-        return ["ret", fval(v._max_grad_in_status_struct(tv, tn, c["root"], c["key"], c["ang"], c["grad"])), farr(tv), iarr(tn)]
+        import contextlib
+        import io
+        with contextlib.redirect_stdout(io.StringIO()):     # the code prints "Angles outside angle" for a non-spanning node
+            q = v._max_grad_in_status_struct(tv, tn, c["root"], c["key"], c["ang"], c["grad"])
+        return ["ret", fval(q), farr(tv), iarr(tn)]
     if op == "fvmin":
         return ["ret", fval(v._find_value_min_value(tv, c["x"])), farr(tv)]
     if op == "min":
